@@ -98,7 +98,7 @@ func judgeDangling(c *Ctx, conf *cfg.Config, run *cli.Run, files map[string]stri
 	if run.Rep.Section("Validate output") == nil {
 		// rejected earlier (Compile): nothing to compare, unless the generator meant the config to reach validation
 		if !otherDefects {
-			c.Side("C11", "rejected-before-validation:"+sigWords(strings.Join(run.Rep.List, " ")), "configuration did not reach output validation:\n"+run.Res.Stdout, files)
+			c.Violate("rejected-before-validation:"+sigWords(strings.Join(run.Rep.List, " ")), "configuration did not reach output validation:\n"+run.Res.Stdout, files)
 		}
 		return
 	}
@@ -239,6 +239,28 @@ func checkC06(c *Ctx) error {
 				gen.Inject(r, &m, []string{"missing-param", "missing-service", "missing-mixed"}[r.Intn(3)], j)
 			}
 			jobs = append(jobs, &m)
+		}
+	}
+	// pairs (referrer, name) whose texts concatenate to the same string: referrer `mailer` with the declared `transport.dsn`
+	// next to referrer `mailer.transport` with the undeclared `dsn` - for every separator names may contain, as services,
+	// as parameters and as decorator tags
+	for _, sep := range []string{".", "-", "_"} {
+		for variant := 0; variant < 2; variant++ {
+			conf := &cfg.Config{Meta: cfg.Meta{Pkg: cfg.P("gen"), Imports: []cfg.KS{{K: "pa", V: "fixt/pa"}}}}
+			decl, undecl := "transport"+sep+"dsn", "dsn"
+			r1, r2 := "mailer", "mailer"+sep+"transport"
+			if variant == 1 {
+				// the dangling one is the one that sorts first
+				r1, r2 = "mailer"+sep+"transport", "mailer"
+				decl, undecl = "dsn", "transport"+sep+"dsn"
+			}
+			conf.Params = []cfg.KV{{K: decl, V: cfg.Str("x")}, {K: r1, V: cfg.Str("a%" + decl + "%")}, {K: r2, V: cfg.Str("b%" + undecl + "%")}}
+			conf.Services = []cfg.Service{
+				{Name: decl, Constructor: cfg.P("pa.New")},
+				{Name: r1, Constructor: cfg.P("pa.New"), Args: []cfg.Val{cfg.Str("%" + decl + "%"), cfg.Str("@" + decl)}},
+				{Name: r2, Constructor: cfg.P("pa.New"), Args: []cfg.Val{cfg.Str("%" + undecl + "%"), cfg.Str("@" + undecl)}},
+			}
+			jobs = append(jobs, conf)
 		}
 	}
 	c.Set("configurations", len(jobs))
